@@ -80,6 +80,35 @@ def auto_release(prog):
     return out
 
 
+def auto_takes(prog):
+    """Helpers of the library itself that store a pointer parameter into a field of an object reached through another
+    parameter on every path (`static void set_cached(loop, text) { free(loop->text); loop->text = text; }`): the argument
+    is handed over.  callee -> [argument indexes]."""
+    cache = getattr(prog, "_auto_takes", None)
+    if cache is not None:
+        return cache
+    from . import cfgq
+    from .facts import root_var
+    out = {}
+    for fn in prog.all_functions():
+        if fn.name in TAKES or fn.name in ALLOC_OUT or not fn.static:
+            continue
+        pnames = [prm["name"] for prm in fn.params]
+        for idx, prm in enumerate(fn.params):
+            if "*" not in (prm.get("t") or ""):
+                continue
+            sites = []
+            for (b, i, r, a) in fn.eval_sites("asg"):
+                l = strip(a.get("lhs"))
+                if a.get("op") == "=" and path(strip(a.get("rhs"))) == prm["name"] and isinstance(l, dict) and l.get("k") == "member" \
+                        and root_var(l) in pnames and root_var(l) != prm["name"]:
+                    sites.append((b.id, i))
+            if sites and cfgq.must_follow(fn, (fn.entry, -1), sites):
+                out.setdefault(fn.name, []).append(idx)
+    prog._auto_takes = out
+    return out
+
+
 def _root(p):
     m = re.match(r"^[\(\*&]*([A-Za-z_]\w*)", p or "")
     return m.group(1) if m else None
@@ -96,6 +125,8 @@ class OwnInterp(Interp):
         self.max_steps = 400000
         self.release = dict(RELEASE)
         self.release.update(auto_release(prog))
+        self.takes = dict(TAKES)
+        self.takes.update(auto_takes(prog))
         # keep the state space small: status variables are pointers, result codes and flags of this function
         keep = {p["name"] for p in fn.params} | {l["name"] for l in fn.locals}
         self.tracked = {p for p in self.tracked if _root(p) in keep and not p.startswith("scanner->")}
@@ -196,9 +227,9 @@ class OwnInterp(Interp):
                 # the callee may fail for any reason, not only for lack of memory: not an OOM-only path
                 return [(okst, av_const(0)), (st, NONZERO)]
             return [(st, None)]
-        if c in TAKES:
+        if c in self.takes:
             changed = False
-            for idx in TAKES[c]:
+            for idx in self.takes[c]:
                 if idx < len(args):
                     p = path(strip(args[idx]))
                     rid = al.get(p) if p else None
